@@ -6,7 +6,7 @@ import z3
 
 from pyvc import smt
 from pyvc.spec import LoopSpec, contract, forall, forall2
-from pyvc.values import BOOL, FRAG, GAP, INT, NONE, REAL, ROW, STR, TList, TOpt, TRef, TTuple
+from pyvc.values import BOOL, FRAG, GAP, INT, NONE, REAL, ROW, STR, TList, TOpt, TRef, TSet, TTuple
 
 from .overlap_result import wf as or_wf
 
@@ -390,4 +390,145 @@ class _:
                 v.assemblies.raw(k) >= o.alloc, v.assemblies.raw(k) < v.alloc, v.assemblies.get(k).scaffolds.z >= o.alloc,
                 v.assemblies.get(k).scaffolds.z < v._it1_seq.z))))(z3.Const("k!asms", OSTR))),
         ], frame=lambda v, e: {"$fresh-only": ["LA.Int", "LHI.Int", "LLO.Int"]}),
+    }
+
+
+# --- C07 / C01 / C08: input contigs that the map did not place ------------------------------------------------------------
+# "two fragments are directly adjacent only if the same two contig ends were directly adjacent in the input ... every gap
+# row is either the input gap that separates the same two neighbouring contigs or the configured join gap, and a junction
+# between contigs that were not neighbours in the input always uses the join gap" - for the left-over scaffolds built by
+# add_missing_scaffolds_from_input this is a rule about one input row at a time, proved per row:
+#   a contig row that was found by the map adds nothing; a contig row that was not found is appended, preceded by
+#   nothing when the previously appended contig is the row just before it, by the input gap row when exactly that gap row lies
+#   between them, and by the join gap otherwise.
+
+KEY3 = TTuple([STR, INT, INT])
+
+
+@contract("tola.assembly.build_utils.ScaffoldNamer.make_scaffold_name", status="TRUSTED")
+class _:
+    # at call sites: works out name / rank / haplotype from the tags and keeps them in the namer; the scaffold it is
+    # given is only read (the order-insensitivity of the tag loop is the custom contract in specs/build_utils.py)
+    params = {"self": TRef("ScaffoldNamer"), "scaffold": TRef("Scaffold"), "fragment_tags": TOpt(TSet(STR))}
+    defaults = {"fragment_tags": None}
+    result = NONE
+    modifies = staticmethod(lambda o: [("field", "ScaffoldNamer", f, o.self) for f in (
+        "current_scaffold_name", "current_rank", "current_haplotype", "haplotig_n", "unloc_n", "target_tags", "primary_haplotype")]
+        + [("dict-maps", STR, STR)])
+    raises = {e: (lambda o: True) for e in ("TaggingError", "ValueError")}
+
+
+@contract("tola.assembly.scaffold.Scaffold.fragment_tags", status="TRUSTED")
+class _:
+    params = {"self": TRef("Scaffold")}
+    result = TSet(STR)
+    modifies = staticmethod(lambda o: [("alloc",)])
+    ensures = staticmethod(lambda o, n, res: z3.And(res.z >= o.alloc, res.z < n.alloc))
+
+
+def _leftover_row_post(v, b, e, o):
+    from pyvc.spec import ObjView
+
+    src = b.top.scffld.rows  # rows of the input scaffold being walked
+    k = b._it100
+    r = src[k]
+    found = o.self.found_fragments
+    key = KEY3.sort().mk(r.name, r.start, r.end)
+    unfound = z3.And(r.is_frag, z3.Not(found.has(key)))
+    ns0, ns1 = _O(b.top, "new_scffld"), _O(v.top, "new_scffld")
+    la0, la1 = _O(b.top, "last_added_i"), _O(v.top, "last_added_i")
+    rows1 = ns1.val.rows
+    old_len = z3.If(ns0.is_none, 0, ns0.val.rows.len if not z3.is_int_value(ns0.val) else 0)
+    gap = o.self.default_gap
+    sep_none = z3.Or(la0.is_none, la0.val == k - 1)
+    sep_input_gap = z3.And(z3.Not(sep_none), la0.val == k - 2, src[k - 1].is_gap)
+    n_sep = z3.If(sep_none, 0, 1)
+    return [
+        ("placed-or-gap-row-adds-nothing", z3.Implies(z3.Not(unfound), z3.And(ns1.is_none == ns0.is_none, la1.is_none == la0.is_none,
+                                                                             z3.Implies(z3.Not(ns0.is_none), z3.And(ns1.val.z == ns0.val.z, rows1.len == old_len, la1.val == la0.val))))),
+        ("unplaced-contig-is-kept", z3.Implies(unfound, z3.And(z3.Not(ns1.is_none), z3.Not(la1.is_none), la1.val == k, rows1.len == old_len + n_sep + 1,
+                                                               rows1[rows1.len - 1].z == r.z, z3.Implies(z3.Not(ns0.is_none), ns1.val.z == ns0.val.z)))),
+        ("no-gap-between-input-neighbours", z3.Implies(z3.And(unfound, sep_none), rows1.len == old_len + 1)),
+        ("input-gap-between-the-contigs-it-separated", z3.Implies(z3.And(unfound, sep_input_gap), rows1[old_len].z == src[k - 1].z)),
+        ("join-gap-otherwise", z3.Implies(z3.And(unfound, z3.Not(sep_none), z3.Not(sep_input_gap)), z3.And(z3.Not(gap.is_none), rows1[old_len].z == gap.val.z))),
+        ("earlier-rows-kept", z3.Implies(z3.And(unfound, z3.Not(ns0.is_none)),
+                                         forall(lambda j: z3.Implies(z3.And(0 <= j, j < old_len), rows1[j].z == (ns0.val.rows[j].z if not z3.is_int_value(ns0.val) else rows1[j].z))))),
+    ]
+
+
+def _leftover_inv(v, e, o):
+    src = v.top.scffld.rows
+    k0 = v._it100
+    ns, la = _O(v.top, "new_scffld"), _O(v.top, "last_added_i")
+    out = [
+        ("counter", z3.And(0 <= k0, k0 <= src.len)),
+        ("objects", z3.And(v.top.self.z == o.self.z, v.top.scffld.z == e.top.scffld.z, v.top.found_frags.z == o.self.found_fragments.z, src.z < o.alloc)),
+        ("both-or-neither", ns.is_none == la.is_none),
+    ]
+    if not z3.is_int_value(ns.val):
+        nsv = ns.val
+        out.append(("left-over-scaffold", z3.Implies(z3.Not(ns.is_none), z3.And(
+            nsv.z >= o.alloc, nsv.rows.z >= o.alloc, nsv.z < v.alloc, nsv.rows.z < v.alloc, nsv.rows.lo == 0, nsv.rows.len >= 1, 0 <= la.val, la.val < k0,
+            nsv.rows[nsv.rows.len - 1].z == src[la.val].z, src[la.val].is_frag,
+            # C08: the left-over piece keeps the name of the input scaffold it comes from (and is ranked as unplaced)
+            nsv.name == v.top.scffld.name, z3.Not(nsv.rank.is_none), nsv.rank.val == 3))))
+    return out
+
+
+class _O:
+    """an Optional local, whatever static type it has on the current path"""
+
+    def __init__(self, ns, name):
+        from pyvc.spec import SpecInapplicable, view
+        from pyvc.values import TNone, TOpt as _TOpt, unpack
+
+        raw = ns.raw(name)
+        if raw is None:
+            raise SpecInapplicable(f"spec refers to unknown name '{name}'")
+        st = ns.state
+        if isinstance(raw.ty, _TOpt):
+            S = raw.ty.sort()
+            self.is_none = raw.z == S.none
+            self.val = view(st, unpack(raw.ty.inner, z3.simplify(S.val(raw.z))))
+        elif isinstance(raw.ty, TNone):
+            self.is_none = z3.BoolVal(True)
+            self.val = z3.IntVal(0)  # never looked at: every use is guarded by is_none
+        else:
+            self.is_none = z3.BoolVal(False)
+            self.val = view(st, raw)
+
+
+from pyvc.values import TSet  # noqa: E402
+
+
+@contract(f"{M}.add_missing_scaffolds_from_input", properties=("C07", "C01", "C08"))
+class _:
+    params = {"self": BA, "input_asm": TRef("Assembly")}
+    result = NONE
+    inlined = [("tola.assembly.scaffold.Scaffold.idx_fragments", 100)]
+
+    @staticmethod
+    def requires(o):
+        scs = o.input_asm.scaffolds
+        return [("input-scaffolds", forall(lambda k: z3.Implies(z3.And(0 <= k, k < scs.len), z3.And(scs[k].z >= 1, scs[k].z < o.alloc, scs[k].rows.z >= 1, scs[k].rows.z < o.alloc)))),
+                ("separate-objects", z3.And(o.input_asm.z != o.self.z, o.input_asm.scaffolds.z != o.self.scaffolds.z)),
+                ("default-gap-is-a-gap", z3.Implies(z3.Not(o.self.default_gap.is_none), o.self.default_gap.val.is_gap))]
+
+    modifies = staticmethod(lambda o: [("fresh-objs", "Scaffold", ["name", "rows", "tag", "haplotype", "rank", "original_name", "original_tags"]),
+                                       ("fresh-lists", ROW), ("list", TRef("Scaffold"), o.self.scaffolds), ("dict-maps", STR, STR),
+                                       *[("field", "ScaffoldNamer", f, o.self.scaffold_namer) for f in (
+                                           "current_scaffold_name", "current_rank", "current_haplotype", "haplotig_n", "unloc_n", "target_tags", "primary_haplotype")],
+                                       ("alloc",), ("ralloc",)])
+    raises = {e: (lambda o: True) for e in ("TaggingError", "ValueError", "TypeError")}
+
+    loops = {
+        0: LoopSpec(kind="for", iter_src="input_asm.scaffolds", types={"new_scffld": TOpt(TRef("Scaffold")), "last_added_i": TOpt(INT)},
+                    inv=lambda v, e, o: [("objects", z3.And(v.self.z == o.self.z, v.input_asm.z == o.input_asm.z, v.found_frags.z == o.self.found_fragments.z,
+                                                            v.scaffold_namer.z == o.self.scaffold_namer.z, v._it0_seq.z == o.input_asm.scaffolds.z)),
+                                         ("counter", z3.And(0 <= v._it0, v._it0 <= o.input_asm.scaffolds.len))],
+                    frame=lambda v, e: {"$fresh-only": ["LA.Row", "LHI.Row", "LLO.Row", "H.Scaffold.name", "H.Scaffold.rows", "H.Scaffold.tag", "H.Scaffold.haplotype",
+                                                        "H.Scaffold.rank", "H.Scaffold.original_name", "H.Scaffold.original_tags", "H.$class"]}),
+        100: LoopSpec(kind="for", types={"new_scffld": TOpt(TRef("Scaffold")), "last_added_i": TOpt(INT)}, inv=_leftover_inv, iter_post=_leftover_row_post,
+                      frame=lambda v, e: {"$fresh-only": ["LA.Row", "LHI.Row", "LLO.Row", "H.Scaffold.name", "H.Scaffold.rows", "H.Scaffold.tag", "H.Scaffold.haplotype",
+                                                          "H.Scaffold.rank", "H.Scaffold.original_name", "H.Scaffold.original_tags", "H.$class"]}),
     }
